@@ -359,7 +359,7 @@ class Spec:
                         problems.append(("C17:binop-wrong-value-after-history:lt", {"op": op, "got": np.asarray(r.values).tolist(), "expected": want.tolist()}))
                 else:
                     got, gd, gt = _arr.phys(r)
-                    if not _arr.close(got, want, 1e-12 + tx + ty + gt):
+                    if not _arr.close(got, want, _arr.eps_for(x.dtype, y.dtype, r.dtype) + tx + ty + gt):
                         problems.append((f"C17:binop-wrong-value-after-history:{opname}", {"op": op, "got": np.ravel(got).tolist(), "expected": np.ravel(want).tolist()}))
             ret = "binop"
         elif name == "sortby":
